@@ -108,6 +108,24 @@ class C13Kernel(KernelProp):
                                       {"op": "state", "t": 0, "c": 2}] + probes(2)      # left, although with an error
                                      + [{"op": "exit", "t": 1, "c": 3, "end": {"k": "ret"}},
                                         {"op": "exit", "t": 0, "c": 1, "end": {"k": "ret"}}]})
+            # … several children of one parent, entered by different tasks, coming and going in every order: what counts
+            # when the parent is left is whether any of them is still open, not what the last one to move did
+            for order, keep in itertools.product(("ab", "ba"), ("a", "b", "none")):
+                a_in = {"op": "enter", "t": 1, "c": 3}
+                b_in = {"op": "enter", "t": 2, "c": 4}
+                a_out = {"op": "exit", "t": 1, "c": 3, "end": {"k": "ret"}}
+                b_out = {"op": "exit", "t": 2, "c": 4, "end": {"k": "ret"}}
+                first = [a_in, b_in] if order == "ab" else [b_in, a_in]
+                before = {"a": [b_out], "b": [a_out], "none": [a_out, b_out] if order == "ab" else [b_out, a_out]}[keep]
+                after = {"a": [a_out], "b": [b_out], "none": []}[keep]
+                cases.append({"kind": "ctx", "backend": backend, "origin": f"matrix:open-sibling:{order}:{keep}",
+                              "ops": [{"op": "new", "t": 0, "c": 1, "parent": None}, {"op": "enter", "t": 0, "c": 1},
+                                      {"op": "new", "t": 0, "c": 2, "parent": None}, {"op": "enter", "t": 0, "c": 2},
+                                      {"op": "spawn", "t": 0, "t2": 1}, {"op": "spawn", "t": 0, "t2": 2},
+                                      {"op": "new", "t": 1, "c": 3, "parent": 2}, {"op": "new", "t": 2, "c": 4, "parent": 2}]
+                                     + first + before
+                                     + [{"op": "exit", "t": 0, "c": 2, "end": {"k": "ret"}}, {"op": "state", "t": 0, "c": 2}]
+                                     + after + [{"op": "exit", "t": 0, "c": 1, "end": {"k": "ret"}}]})
             # … also when the child was entered by a task that has ended and nobody else refers to the child
             for end in ends[:2]:
                 cases.append({"kind": "ctx", "backend": backend, "origin": f"matrix:leaked-child:{end['k']}",
